@@ -128,6 +128,10 @@ class Report:
             if name in reproduced_groups:
                 continue
             solver_out = {"status": r.status, "log": r.log, "goal": d["goal"]}
+            if isinstance(r.model, dict):
+                # the solver's counter-model over the symbolic world (names of the symbolic inputs, provider answers and
+                # havocked fields); for world lemmas there is no concrete harness, so this valuation is the counterexample
+                solver_out["counter_model"] = {k: v for k, v in list(r.model.items())[:250] if "lambda" not in str(v)}
             if r.status == "sat" and r.model is not None and replay.can_replay(d) and replay_tries.get(name, 0) < 3:
                 replay_tries[name] = replay_tries.get(name, 0) + 1
                 rp = replay.replay_model(d, r.model)
@@ -277,11 +281,12 @@ class Report:
             os.makedirs(os.path.dirname(BASELINE), exist_ok=True)
             with open(BASELINE, "w") as f:
                 json.dump(allb, f, indent=0, sort_keys=True)
-        if self.violations:
-            return 1
         if self.faults:
             for m in self.faults[:20]:
                 print("CHECKER-ERROR: %s" % m)
+        if self.violations:
+            return 1
+        if self.faults:
             return 3
         return 0
 
